@@ -53,6 +53,12 @@ def recoverClean (c : Candle F) : Candle F :=
   | some k => { c with o := k.o, h := k.h, l := k.l, c := k.c, v := k.v,
                        ts := match k.ts with | some t => some t | none => c.ts }
 
+/-- `candle.clean_values.get("close", candle.close)`: the pre-conversion close -/
+def rawClose (c : Candle F) : Num F :=
+  match c.clean with
+  | some k => k.c
+  | none => c.c
+
 def reset (c : Candle F) : Candle F := { c with inds := [], subs := [], tag := false }
 
 /-- `Candle.merge` -/
